@@ -6,6 +6,8 @@ call made by the managers takes the next outcome of the current script:
 ('ok',) ('yield', message) ('stop',) ('redis',) ('other', exn_name).  When the script is
 exhausted ScriptEnd (a BaseException) cuts the run.  time.sleep / asyncio.sleep are replaced
 inside the two manager modules by recorders: no wall-clock time passes."""
+import asyncio
+import gc
 import sys
 import types
 
@@ -68,16 +70,74 @@ class Control:
 CTL = Control()
 
 
+class Broker:
+    """Broker mode (used to run the REAL RedisManager._thread): a queue of channel messages that a
+    pubsub object receives only while the channel is subscribed ON THAT OBJECT (subscriptions are a
+    set, as in Redis: subscribe twice + unsubscribe once = not subscribed).  Queue entries:
+    ('msg', data, on_deliver) or ('err',) = the connection drops (RedisError out of listen()).
+    Events: ('sub',) ('unsub',) ('connect',) ('deliver', k) ('lost', k)."""
+
+    def __init__(self, queue):
+        self.queue = list(queue)
+        self.events = []
+        self.k = 0
+        self.ended = False      # queue exhausted: what follows is the tear-down of the run, not observed
+
+    def next(self, pubsub, channel):
+        """What the next step of listen() does: a message dict, or raises."""
+        while True:
+            if not self.queue:
+                self.ended = True
+                raise ScriptEnd()
+            head = self.queue.pop(0)
+            if head[0] == 'err':
+                raise ServerAway('connection lost')
+            k = self.k
+            self.k += 1
+            if channel not in pubsub.channels:
+                self.events.append(('lost', k))      # nobody is subscribed: the broker drops it
+                continue
+            self.events.append(('deliver', k))
+            if head[2] is not None:
+                head[2]()
+            return {'type': 'message', 'pattern': None, 'channel': channel.encode('utf-8'), 'data': head[1]}
+
+
+BROKER = None       # set by the driver while a _thread run is in progress
+
+
+def set_broker(b):
+    global BROKER
+    BROKER = b
+
+
 class PubSub:
+    def __init__(self):
+        self.channels = set()
+
     def subscribe(self, *channels):
+        if BROKER is not None:
+            self.channels.update(channels)
+            if not BROKER.ended:
+                BROKER.events.append(('sub',))
+            return
         CTL.call(('subscribe',))
 
     def unsubscribe(self, *channels):
-        pass
+        if BROKER is not None:
+            self.channels.difference_update(channels)
+            if not BROKER.ended:
+                BROKER.events.append(('unsub',))
 
     def listen(self):
+        if BROKER is not None:
+            return self._broker_gen()
         CTL.note(('listen',))
         return self._gen()
+
+    def _broker_gen(self):
+        while True:
+            yield BROKER.next(self, 'socketio')
 
     def _gen(self):
         while True:
@@ -91,6 +151,9 @@ class PubSub:
 class Redis:
     @classmethod
     def from_url(cls, url, **options):
+        if BROKER is not None:
+            BROKER.events.append(('connect',))
+            return cls()
         CTL.call(('connect',))
         return cls()
 
@@ -103,15 +166,40 @@ class Redis:
 
 
 class AsyncPubSub:
+    def __init__(self):
+        self.channels = set()
+
     async def subscribe(self, *channels):
+        if BROKER is not None:
+            self.channels.update(channels)
+            if not BROKER.ended:
+                BROKER.events.append(('sub',))
+            return
         CTL.call(('subscribe',))
 
     async def unsubscribe(self, *channels):
-        pass
+        if BROKER is not None:
+            self.channels.difference_update(channels)
+            if not BROKER.ended:
+                BROKER.events.append(('unsub',))
 
     def listen(self):
+        if BROKER is not None:
+            return self._broker_gen()
         CTL.note(('listen',))
         return self._gen()
+
+    async def _broker_gen(self):
+        # a (re)started listener: give the event loop the turns a real program has, so that an
+        # abandoned async generator (the previous _listen()) is finalised before messages flow
+        for _ in range(3):
+            await asyncio.sleep(0)
+        gc.collect()
+        for _ in range(3):
+            await asyncio.sleep(0)
+        while True:
+            await asyncio.sleep(0)
+            yield BROKER.next(self, 'socketio')
 
     async def _gen(self):
         while True:
@@ -125,6 +213,9 @@ class AsyncPubSub:
 class AsyncRedis:
     @classmethod
     def from_url(cls, url, **options):
+        if BROKER is not None:
+            BROKER.events.append(('connect',))
+            return cls()
         CTL.call(('connect',))
         return cls()
 
